@@ -17,7 +17,7 @@ RULE = ('directions: boundary grid (every 5 deg) and seeded-random points with h
         'both projection paths. distinct_nontrivial = distinct inputs (quantised to 1e-12) that reached a monitor.')
 ASSUMPTIONS = ['float32 accuracy bound of the statement taken as 1e-6 rad (measured worst values are in the evidence)',
                'V2 reference: light plane through the rotation axis direction tilted by 30 deg, n(a).d = 0']
-REQUIRED = ['mon.poses_whose_source_arrays_were_changed_afterwards', 'mon.solver_poses_with_exactly_zero_translation', 'mon.poses_from_quaternions_not_of_unit_length', 'mon.vector_answers_modified_by_the_caller', 'mon.list_helpers_asked_again_after_the_list_changed', 'mon.v1_v2_v1', 'mon.v1_cart_v1', 'mon.v1_proj_v1', 'mon.v2_plane_reference', 'mon.pose_inverse',
+REQUIRED = ['mon.solver_projections_on_recycled_memory_holding_junk', 'mon.poses_whose_source_arrays_were_changed_afterwards', 'mon.solver_poses_with_exactly_zero_translation', 'mon.poses_from_quaternions_not_of_unit_length', 'mon.vector_answers_modified_by_the_caller', 'mon.list_helpers_asked_again_after_the_list_changed', 'mon.v1_v2_v1', 'mon.v1_cart_v1', 'mon.v1_proj_v1', 'mon.v2_plane_reference', 'mon.pose_inverse',
             'mon.pose_associativity', 'mon.pose_views', 'mon.solver_projection', 'mon.solver_zero_rotation', 'mon.ippe_axes', 'mon.pose_laws_after_history',
             'mon.solver_pairs_with_crazyflie_behind_the_base_station', 'mon.solver_non_canonical_rotation_vectors']
 
@@ -365,7 +365,18 @@ def run_solver(desc, ctx):
             sens.append(s)
             v = LighthouseBsVector.from_cart(B.inv_rotate_translate(C.rotate_translate(s)))
             want.append(v.lh_v1_angle_pair)
-        got = LighthouseGeometrySolver._calc_angle_pairs(np.array(bsp), np.array(cfp), np.array(sens), defs)
+        a_bsp, a_cfp, a_sens = np.array(bsp), np.array(cfp), np.array(sens)
+        if it % 2 == 0:
+            # the memory the projection gets for its temporaries was used before (by this process) and holds whatever was
+            # left in it: not-a-numbers, infinities, large values - a result must not depend on that
+            junk = (np.nan, np.inf, -np.inf, 1e300)[(it // 2) % 4]
+            for shape_ in ((n, 3), (n, 1), (n,), (n, 6)):
+                held_ = [np.empty(shape_) for _ in range(12)]       # drain what the allocator has in store for this size
+                poison_ = [np.full(shape_, junk) for _ in range(12)]
+                del held_
+                del poison_                                          # ... and leave poisoned blocks behind for the next user
+            ctx.count('mon.solver_projections_on_recycled_memory_holding_junk')
+        got = LighthouseGeometrySolver._calc_angle_pairs(a_bsp, a_cfp, a_sens, defs)
         ctx.evals()
         ctx.count('mon.solver_projection', n)
         ctx.nontrivial(('solver', desc['seed'], it))
